@@ -2,6 +2,7 @@
 //! one line per operation: `op<TAB>observation`. The Lean driver replays the ops through the model.
 mod util;
 mod c16;
+mod c10;
 
 use util::Ctx;
 
@@ -28,6 +29,7 @@ fn main() {
     let mut ctx = Ctx::new(seed, tier == "thorough");
     match (args[1].as_str(), args[2].as_str()) {
         ("gen", "C16") => c16::gen(&mut ctx),
+        ("gen", "C10") => c10::gen(&mut ctx),
         _ => { eprintln!("unknown command"); std::process::exit(2); }
     }
     ctx.finish(stats.as_deref());
